@@ -109,11 +109,11 @@ def write_coqproject():
     p = os.path.join(COQ, "_CoqProject")
     new = "\n".join(lines) + "\n"
     old = open(p).read() if os.path.exists(p) else ""
-    if new != old:
+    if new != old or not os.path.exists(os.path.join(COQ, "Makefile")):
         open(p, "w").write(new)
-    rc, o, e = sh(["coq_makefile", "-f", "_CoqProject", "-o", "Makefile"], cwd=COQ, timeout=120)
-    if rc != 0:
-        raise RuntimeError("coq_makefile failed: " + e)
+        rc, o, e = sh(["coq_makefile", "-f", "_CoqProject", "-o", "Makefile"], cwd=COQ, timeout=120)
+        if rc != 0:
+            raise RuntimeError("coq_makefile failed: " + e)
 
 
 def hygiene_scan(dirs):
